@@ -2,7 +2,8 @@
 Ties: T1 (skeletons of the scheduling / context-switch / life-cycle functions), T3 (vsched traces of generated work-unit
 programs validated against Model.Sched), scenario monitors + deadlock detection for the failing-input search; migrations
 whose re-association with a user-defined target pool fails (single injected allocation failures, harness/fi_scen.c
-`as.mig_yield.*`): the callback belongs to the performed migration only."""
+`as.mig_yield.*`): the callback belongs to the performed migration only; T2: the request rules (Model.MigRules)
+exhaustively over four pools against the real ABT_thread_migrate_to_pool / _to_sched (harness/api_migrules.c)."""
 from checks import sched_common as S
 
 ASSUMPTIONS = list(S.BASE_ASSUMPTIONS) + [
@@ -47,15 +48,80 @@ def native_api(res):
                       {"native": "nat_migrate_api", "exit": rc, "output": out[-1500:]})
 
 
+def migrules_lines():
+    """every request over four pools: to_pool (unit pool x target), to_sched (unit pool x every ordered non-empty list of
+    distinct pools), each for a migratable and a non-migratable unit: 544 lines"""
+    import itertools
+    lines = []
+    for mig in (1, 0):
+        for u in range(4):
+            for t in range(4):
+                lines.append("req p %d %d 1 %d" % (u, mig, t))
+            for k in range(1, 5):
+                for ps in itertools.permutations(range(4), k):
+                    lines.append("req s %d %d %d %s" % (u, mig, k, " ".join(map(str, ps))))
+    return lines
+
+
+def migrules_oracle(line):
+    w = line.split()
+    u, mig, ps = int(w[2]), int(w[3]), [int(x) for x in w[5:]]
+    if not mig:
+        return "inv_thread stay=1 cb=0"
+    if u in ps:
+        return "migration_target stay=1 cb=0"
+    return "ok %d cb=1" % ps[0]
+
+
+def t2_migrules(res, broken):
+    """T2: the request rules on the real library (harness/api_migrules.c, ASan/UBSan) against Model.MigRules
+    (`driver migrules`) and against the property's own statement, exhaustively over four pools"""
+    from vlib import common as C, diff as D
+    exe = C.cc_harness("api_migrules", ["api_migrules.c"], "san")
+    lines = migrules_lines()
+    rc, out, err = D.run_lines([exe], lines, timeout=300)
+    rcm, outm, errm = D.model_lines("migrules", lines)
+    res.add_cov(migration_rule_requests=len(lines))
+    if rcm != 0:
+        broken.append({"kind": "T2-correspondence", "model": "Model.MigRules", "reason": "model driver failed rc=%d" % rcm})
+        return
+    if rc != 0:
+        res.violation("the migration request routines fail under the sanitizers (exit %s)" % rc,
+                      {"harness": "api_migrules", "lines": lines, "exit": rc, "stderr": err[-1500:]})
+        return
+    bad = [(l, out[i] if i < len(out) else "<missing>") for i, l in enumerate(lines)
+           if (out[i] if i < len(out) else "<missing>") != migrules_oracle(l)]
+    if bad:
+        l, got = bad[0]
+        res.violation("migration request rules: `%s` -> the real code answers `%s`, the property demands `%s`" % (l, got, migrules_oracle(l)),
+                      {"harness": "api_migrules", "lines": [l], "impl": got, "property_demands": migrules_oracle(l),
+                       "all_failing": [b[0] for b in bad][:40]})
+    diff = [(l, out[i], outm[i] if i < len(outm) else "<missing>") for i, l in enumerate(lines)
+            if i < len(out) and (i >= len(outm) or out[i] != outm[i])]
+    if diff and not bad:
+        broken.append({"kind": "T2-correspondence", "model": "Model.MigRules", "reason": "model and real code differ",
+                       "first": {"line": diff[0][0], "impl": diff[0][1], "model": diff[0][2]}})
+
+
 def run(res, tier, broken):
     S.run_sched(res, tier, broken, "C13", EXTRA_T1)
     faulted_migration(res)
     native_api(res)
+    t2_migrules(res, broken)
 
 
 def replay(res, path):
     import json
     rep = json.load(open(path))
+    if rep.get("harness") == "api_migrules":
+        from vlib import common as C, diff as D
+        rc, out, err = D.run_lines([C.cc_harness("api_migrules", ["api_migrules.c"], "san")], rep["lines"], timeout=300)
+        bad = 0
+        for i, l in enumerate(rep["lines"]):
+            got = out[i] if i < len(out) else "<missing>"
+            print("%s -> %s (property: %s)" % (l, got, migrules_oracle(l)))
+            bad |= got != migrules_oracle(l)
+        return 1 if (bad or rc != 0) else 0
     if rep.get("native") == "nat_migrate_api":
         import subprocess
         from vlib import common as C
